@@ -124,8 +124,19 @@ let op_tp_start a =
   let excs = List.map (fun g -> g.f_st.tp_segs) (tp_existing f.f_exc) in
   let nowz = z_of_int !now in
   f.f_active <- true;
-  f.f_st <- (if f.f_st = tp_empty then tp_roll_start (tp_upd_fun f) f.f_prefer ((nowz, incs), excs)
-             else tp_update_region true (tp_upd_fun f) f.f_prefer incs excs nowz (z_of_int (!now + 86400)) true f.f_st);
+  (* the state Start() finds is the empty one or the one restored from the state file (tp_reload) *)
+  f.f_st <- tp_roll_start_on tp_src_start_resets (tp_upd_fun f) f.f_prefer ((nowz, incs), excs) f.f_st;
+  tp_emit_state a
+
+(* tp_reload: restart with an edited configuration - a new object (new prefer / includes / excludes, no ranges yet, not
+   started, last in creation order) that carries the old object's state attributes *)
+let op_tp_reload a =
+  let old = tp_get a in
+  let name = str a "name" "" in
+  let f = tp_new_fix a in
+  f.f_st <- old.f_st;
+  Hashtbl.replace tp_tab name f;
+  tp_order := List.filter (fun n -> n <> name) !tp_order @ [name];
   tp_emit_state a
 
 let op_tp_timer _ =
@@ -363,6 +374,7 @@ let () =
     emit ("tp_parse res=" ^ (if tp_validate a then "ok" else "rejected")));
   register_op "tp_new" (fun a -> Hashtbl.replace tp_tab (str a "name" "") (tp_new_fix a); tp_order := !tp_order @ [str a "name" ""]);
   register_op "tp_start" op_tp_start;
+  register_op "tp_reload" op_tp_reload;
   register_op "tp_timer" op_tp_timer;
   register_op "tp_own" (fun a -> (tp_get a).f_own <- List.map parse_seg (split_c (str a "segs" "-") ','));
   register_op "tp_range" (fun a -> tp_apply_range (tp_get a) a);
